@@ -8,7 +8,7 @@ from av.props import simprop
 MANIFEST_ENTRY = {
     "category": "exploration",
     "technique": "offline conservation checker over recorded runs (invariant on every compartment/step of the Result) on generated hostile workloads, generated and shipped (corpus) models under perturbation, with and without program sets",
-    "text": "Every compartment of every simulated step of hundreds (quick) to tens of thousands (thorough) of generated models is checked against x[t+1] = x[t] + inflows - outflows, junction in = out and emptiness, sinks/sources one-sided, and the global total changing only by births. Held means: no counter-example among the executions produced; the evidence lists which compartment kinds, link kinds and value classes were actually reached. Every 8th case is a model shipped with the repository (49 library / fixture framework-databook(-program book) combinations and 18 fixture frameworks with a generated databook: several population types, interactions, derivative parameters, hand-made junction and duration-group layouts) run under perturbation: other step sizes and horizons, calibration factors from mild to hostile, program books switched on at arbitrary years with scaled budgets. About a third of the generated runs carry a generated program set (program-driven rates, numbers and junction proportions, boundary outcomes of exactly 0). A junction that receives nobody must emit exactly zero flows whatever its proportions (idle-junction monitor). A quarter of the plain junctions have proportions typed with six decimals (sums within 1e-6 of 1, not exactly 1).",
+    "text": "Every compartment of every simulated step of hundreds (quick) to tens of thousands (thorough) of generated models is checked against x[t+1] = x[t] + inflows - outflows, junction in = out and emptiness, sinks/sources one-sided, and the global total changing only by births. Held means: no counter-example among the executions produced; the evidence lists which compartment kinds, link kinds and value classes were actually reached. Every 8th case is a model shipped with the repository (49 library / fixture framework-databook(-program book) combinations and 18 fixture frameworks with a generated databook: several population types, interactions, derivative parameters, hand-made junction and duration-group layouts) run under perturbation: other step sizes and horizons, calibration factors from mild to hostile, program books switched on at arbitrary years with scaled budgets. About a third of the generated runs carry a generated program set (program-driven rates, numbers and junction proportions, boundary outcomes of exactly 0). A junction that receives nobody must emit exactly zero flows whatever its proportions (idle-junction monitor). A quarter of the plain junctions have proportions typed with six decimals (sums within 1e-6 of 1, not exactly 1). The Compartments sheet is written in reversed order for a quarter of the frameworks; integral grids are handed over as integers in 60% of such cases.",
     "note": "Trusts numpy and the harness' reading of the Result (links' source/dest/parameter). Domain restriction of the property (ill-posed junctions) is recognised from recorded proportions; non-finite function values are excluded as non-finite inputs.",
 }
 
